@@ -23,8 +23,11 @@ import (
 	"sigs.k8s.io/controller-runtime/pkg/client"
 	"sigs.k8s.io/controller-runtime/pkg/reconcile"
 
+	pkgv1 "github.com/crossplane/crossplane/apis/pkg/v1"
 	"github.com/crossplane/crossplane/internal/controller/apiextensions/definition"
 	"github.com/crossplane/crossplane/internal/controller/apiextensions/offered"
+	"github.com/crossplane/crossplane/internal/controller/pkg/revision"
+	"github.com/crossplane/crossplane/internal/dag"
 	"github.com/crossplane/crossplane/internal/xfn"
 	"github.com/crossplane/crossplane/verifh/kit"
 	"github.com/crossplane/crossplane/verifh/sim"
@@ -61,12 +64,12 @@ func hasFin(o map[string]any, f string) bool {
 }
 
 type monitor struct {
-	running  map[string]bool
+	running           map[string]bool
 	stoppedSinceStart map[string]bool
-	xrDeletesByClaim map[string]bool
-	keys, whats []string
-	checks int
-	order  []string // coarse record of ordering-relevant events for the evidence
+	xrDeletesByClaim  map[string]bool
+	keys, whats       []string
+	checks            int
+	order             []string // coarse record of ordering-relevant events for the evidence
 	// sequence number of the last List by an XRD controller that found no instance of a kind,
 	// and of the creation of every instance: tells a check-then-act race (an instance created
 	// after the emptiness check) from a plain ordering error
@@ -456,6 +459,173 @@ func run(c *kit.Ctx, i int, name string, mu *sync.Mutex, schedules map[string]bo
 	}
 }
 
+// ---- part B: a deleted package revision leaves the dependency Lock before it is finalized ----
+
+const finRevision = "revision.pkg.crossplane.io"
+
+var lockKey = sim.Key{Group: "pkg.crossplane.io", Kind: "Lock", Name: "lock"}
+
+func lockLists(lock map[string]any, name string) bool {
+	ps, _, _ := unstructured.NestedSlice(lock, "packages")
+	for _, p := range ps {
+		if m, ok := p.(map[string]any); ok && m["name"] == name {
+			return true
+		}
+	}
+	return false
+}
+
+func revisionWorld(seed uint64, states []string) *sim.World {
+	w := sim.NewWorld(xrk.Scheme(), seed)
+	var pkgs []any
+	for i, st := range states {
+		n := fmt.Sprintf("prov%d-rev", i)
+		w.MustSeed("pkgmgr", map[string]any{"apiVersion": "pkg.crossplane.io/v1", "kind": "ProviderRevision",
+			"metadata": map[string]any{"name": n, "finalizers": []any{finRevision}, "labels": map[string]any{"pkg.crossplane.io/package": fmt.Sprintf("prov%d", i)}},
+			"spec":     map[string]any{"image": fmt.Sprintf("xpkg.example.org/acme/prov%d:v1", i), "desiredState": st, "revision": int64(1)}})
+		pkgs = append(pkgs, map[string]any{"name": n, "apiVersion": "pkg.crossplane.io/v1", "kind": "Provider", "type": "Provider", "source": fmt.Sprintf("xpkg.example.org/acme/prov%d", i), "version": "v1", "dependencies": []any{}})
+	}
+	w.MustSeed("pkgmgr", map[string]any{"apiVersion": "pkg.crossplane.io/v1beta1", "kind": "Lock", "metadata": map[string]any{"name": "lock"}, "packages": pkgs})
+	return w
+}
+
+func revisionReconciler(w *sim.World, actor string) (*revision.Reconciler, *sim.Client) {
+	cl := w.Client(actor)
+	r := revision.NewReconciler(xrk.NewManager(w, cl),
+		revision.WithNewPackageRevisionFn(func() pkgv1.PackageRevision { return &pkgv1.ProviderRevision{} }),
+		revision.WithDependencyManager(revision.NewPackageDependencyManager(cl, dag.NewMapDag, pkgv1.ProviderGroupVersionKind)))
+	return r, cl
+}
+
+// lockMonitor: a revision's finalizer is removed (by a revision controller) only when the Lock
+// no longer lists it.
+func lockMonitor(keys, whats *[]string) func(v *sim.View, ev *sim.Event) {
+	return func(v *sim.View, ev *sim.Event) {
+		if ev.Key.Kind != "ProviderRevision" || !ev.Changed || ev.Before == nil || !strings.HasPrefix(ev.Actor, "revision") {
+			return
+		}
+		if hasFin(ev.Before, finRevision) && (ev.After == nil || !hasFin(ev.After, finRevision)) {
+			if lock := v.Get(lockKey); lock != nil && lockLists(lock, ev.Key.Name) {
+				for _, k := range *keys {
+					if k == "revision-finalized-while-still-in-lock" {
+						return
+					}
+				}
+				*keys = append(*keys, "revision-finalized-while-still-in-lock:"+sim.Str(ev.Before, "spec", "desiredState"))
+				*whats = append(*whats, fmt.Sprintf("%s: finalizer %s removed while the Lock still lists %s", ev.Short(), finRevision, ev.Key.Name))
+			}
+		}
+	}
+}
+
+func runRevisionLock(c *kit.Ctx) {
+	// (1) fault enumeration: every call index x 6 outcomes of the deletion reconcile, for an active
+	// and an inactive revision, followed by clean retries
+	for _, st := range []string{"Active", "Inactive"} {
+		base := revisionWorld(uint64(c.Seed)*197, []string{st, "Active"})
+		u := base.Client("user")
+		_ = u.Delete(ctx, &unstructured.Unstructured{Object: base.GetObj(sim.Key{Group: "pkg.crossplane.io", Kind: "ProviderRevision", Name: "prov0-rev"})})
+		probe := base.Clone()
+		pr, pcl := revisionReconciler(probe, "revision0")
+		_, _ = pr.Reconcile(ctx, reconcile.Request{NamespacedName: types.NamespacedName{Name: "prov0-rev"}})
+		n := pcl.Calls()
+		for k := 0; k < n; k++ {
+			for _, out := range sim.AllFaults {
+				name := fmt.Sprintf("revlock/fault/%s/k%d/%s", st, k, out)
+				if !c.Want(name) {
+					continue
+				}
+				w := base.Clone()
+				var keys, whats []string
+				w.AddHook(lockMonitor(&keys, &whats))
+				r, cl := revisionReconciler(w, "revision0")
+				cl.Fault(k, out)
+				from := w.LogLen()
+				crashed := sim.RunActor(func() {
+					_, _ = r.Reconcile(ctx, reconcile.Request{NamespacedName: types.NamespacedName{Name: "prov0-rev"}})
+				})
+				cl.ClearFaults()
+				if crashed {
+					r, cl = revisionReconciler(w, "revision0")
+				}
+				for i := 0; i < 3; i++ {
+					cl.ResetCalls()
+					_, _ = r.Reconcile(ctx, reconcile.Request{NamespacedName: types.NamespacedName{Name: "prov0-rev"}})
+				}
+				if rv := w.GetObj(sim.Key{Group: "pkg.crossplane.io", Kind: "ProviderRevision", Name: "prov0-rev"}); rv == nil {
+					if lock := w.GetObj(lockKey); lock != nil && lockLists(lock, "prov0-rev") {
+						keys = append(keys, "revision-gone-but-still-in-lock:"+st)
+						whats = append(whats, "the revision was finalized and is gone but the Lock still lists it")
+					}
+				}
+				c.Eval(name, true)
+				c.Count("revision_lock_fault_executions", 1)
+				for i, k2 := range keys {
+					var evs []string
+					for _, e := range w.Log(from) {
+						evs = append(evs, e.Short())
+					}
+					c.Violate(k2, name, whats[i], map[string]any{"state": st, "call": k, "outcome": out.String(), "trace": evs})
+				}
+			}
+		}
+	}
+	// (2) interleavings: two revisions deleted at the same time, both controllers update the Lock
+	nSched := c.N(60, 1200)
+	for i := 0; i < nSched; i++ {
+		name := fmt.Sprintf("revlock/sched/%d", i)
+		if !c.Want(name) {
+			continue
+		}
+		r := c.Rng("revlock", i)
+		states := []string{[]string{"Active", "Inactive"}[r.IntN(2)], []string{"Active", "Inactive"}[r.IntN(2)], "Active"}
+		w := revisionWorld(uint64(c.Seed)*199+uint64(i), states)
+		var keys, whats []string
+		w.AddHook(lockMonitor(&keys, &whats))
+		u := w.Client("user")
+		from := w.LogLen()
+		s := w.NewScheduler()
+		s.Go("user", func() {
+			for _, n := range []string{"prov0-rev", "prov1-rev"} {
+				_ = u.Delete(ctx, &unstructured.Unstructured{Object: w.GetObj(sim.Key{Group: "pkg.crossplane.io", Kind: "ProviderRevision", Name: n})})
+			}
+		})
+		for j := 0; j < 2; j++ {
+			rc, _ := revisionReconciler(w, fmt.Sprintf("revision%d", j))
+			n := fmt.Sprintf("prov%d-rev", j)
+			s.Go(fmt.Sprintf("revision%d", j), func() {
+				for k := 0; k < 4; k++ {
+					if o := w.GetObj(sim.Key{Group: "pkg.crossplane.io", Kind: "ProviderRevision", Name: n}); o != nil && sim.Terminating(o) {
+						_, _ = rc.Reconcile(ctx, reconcile.Request{NamespacedName: types.NamespacedName{Name: n}})
+					} else {
+						_ = u // not deleted yet: nothing to do for the deletion branch
+						_, _ = rc.Reconcile(ctx, reconcile.Request{NamespacedName: types.NamespacedName{Name: "does-not-exist"}})
+					}
+				}
+			})
+		}
+		sched := s.Run(func(en, _ []string) int { return r.IntN(len(en)) }, 5000)
+		w.SetScheduler(nil)
+		switches := 0
+		for k := 1; k < len(sched); k++ {
+			if sched[k] != sched[k-1] {
+				switches++
+			}
+		}
+		c.Eval(name+"|"+strings.Join(sched, ","), switches >= 2)
+		c.Count("revision_lock_schedules", 1)
+		for k, k2 := range keys {
+			var evs []string
+			for _, e := range w.Log(from) {
+				if e.IsWrite() {
+					evs = append(evs, e.Short())
+				}
+			}
+			c.Violate(k2, name, whats[k], map[string]any{"states": states, "schedule": strings.Join(sched, " "), "trace": evs})
+		}
+	}
+}
+
 func onceAt(call int) func(int, string, sim.Key) sim.Outcome {
 	n := 0
 	return func(_ int, _ string, _ sim.Key) sim.Outcome {
@@ -469,8 +639,8 @@ func onceAt(call int) func(int, string, sim.Key) sim.Outcome {
 
 func main() {
 	c := kit.New("C08", "exploration")
-	c.Rule = "worlds with one XRD (with claim names), 1-2 claims with Background/Foreground/unset delete policy, optionally a directly created XR and a not-yet-bound claim; actors scheduled at API-call granularity by a seeded scheduler: user deletions (claim, XR, XRD with foreground/background propagation, in every order), the real definition and offered reconcilers, the production-wired claim and XR reconcilers they start (gated by engine Start/Stop), the Kubernetes garbage collector (one action per step), a third party stripping finalizers, one injected API error; then sequential settling. Precedence monitors on every trace event: claim finalizer removal => XR delete issued before (XR gone under Foreground); CRD delete => no instance exists and the controller was stopped; engine.Stop during XRD deletion => no instance exists; XRD finalizer removal => CRD gone or not ours; at the end nothing terminating is left with a stopped controller. distinct = (scenario, schedule); non-trivial = >=2 different reconcilers made effective writes during the scheduled phase."
-	c.Assumptions = []string{"sim deletes CRDs at once (no customresourcecleanup finalizer)", "a stopped controller reconciles nothing; a running one reconciles every instance when scheduled", "package revision / Lock and composed-Usage teardown clauses are not covered by this check (see DESIGN.md)"}
+	c.Rule = "worlds with one XRD (with claim names), 1-2 claims with Background/Foreground/unset delete policy, optionally a directly created XR and a not-yet-bound claim; actors scheduled at API-call granularity by a seeded scheduler: user deletions (claim, XR, XRD with foreground/background propagation, in every order), the real definition and offered reconcilers, the production-wired claim and XR reconcilers they start (gated by engine Start/Stop), the Kubernetes garbage collector (one action per step), a third party stripping finalizers, one injected API error; then sequential settling. Precedence monitors on every trace event: claim finalizer removal => XR delete issued before (XR gone under Foreground); CRD delete => no instance exists and the controller was stopped; engine.Stop during XRD deletion => no instance exists; XRD finalizer removal => CRD gone or not ours; at the end nothing terminating is left with a stopped controller. Part B (package revisions): the real revision reconciler's deletion branch with the real PackageDependencyManager over a Lock in sim - every call index x 6 outcomes for an Active and an Inactive deleted revision plus seeded schedules of two revisions deleted concurrently; monitor: the revision finalizer is removed only when the Lock no longer lists the revision. distinct = (scenario, schedule); non-trivial = >=2 different reconcilers made effective writes during the scheduled phase."
+	c.Assumptions = []string{"sim deletes CRDs at once (no customresourcecleanup finalizer)", "a stopped controller reconciles nothing; a running one reconciles every instance when scheduled", "the composed-Usage teardown clause is decided by C19 (owner reference / release), not here"}
 	c.Floor = 100
 	n := c.N(400, 8000)
 	var mu sync.Mutex
@@ -494,5 +664,8 @@ func main() {
 	}
 	wg.Wait()
 	c.Count("distinct_schedules", int64(len(schedules)))
+	if err := kit.Try(func() { runRevisionLock(c) }); err != nil {
+		c.Violate("panic:revision-lock", "revlock", err.Error(), nil)
+	}
 	c.Finish()
 }
